@@ -86,12 +86,26 @@ def run(tape, ctx: Ctx) -> None:
     outcomes = {}
     cancelled = {}
     loop_busy = {}
+    externally_cancelled = set()
     fair_since = {"t": None}
 
     with simloop.installed(sim) as loop:
         server = ModelQuantumEngine(sim, ctx, transport, fault_budget, kinds, failing, ())
         server.result_factory = lambda name: _result_any(name, reps)
         server.connect_stalls = tape.chance(1, 4, "connect-stalls?")
+        if tape.chance(1, 3, "slow-jobs?"):
+            durations = {f"projects/{PROJECT}/programs/{p}/jobs/{j}": [0.0, 2.5, 12.0, 90.0][tape.draw(4, "job-duration")]
+                         for (p, j) in jobs}
+            server.job_duration = lambda name: durations.get(name, 0.0)
+            server.cancel_latency = [0.0, 1.5, 4.0][tape.draw(3, "cancel-latency")]
+            ctx.fault_configured("job-slow")
+        sim.add_timer_source(server)
+        if tape.chance(1, 5, "external-cancel?"):
+            # somebody else (another client, an operator) cancels one of the jobs while it runs
+            kx = tape.draw(n_jobs, "external-cancel-which")
+            server.external_cancel = {f"projects/{PROJECT}/programs/{jobs[kx][0]}/jobs/{jobs[kx][1]}"}
+            externally_cancelled.add(kx)
+            ctx.fault_configured("external-cancel")
         client = engine_client.EngineClient(verbose=False, max_retry_delay_seconds=max_retry)
         client.__dict__["grpc_client"] = server.client          # cached_property slot
         context = cg.engine.engine.EngineContext(client=client, timeout=timeout_s, enable_streaming=streaming)
@@ -239,8 +253,8 @@ def _oracle(ctx, server, jobs, failing, outcomes, n_jobs, reps, elapsed, timeout
             # NOT_FOUND after the one allowed re-creation also failed to stick is only legitimate when a
             # non-retryable fault interfered; with none injected it is a lost job
             ok, why = bool(nonretry_unary or any(kd != "break-retryable" for kd in injected_breaks.values())), "404"
-        elif (isinstance(e, RuntimeError) and k == cancel_job_k and sjob0 is not None and sjob0.state == "CANCELLED"
-              and "CANCELLED" in str(e)):
+        elif (isinstance(e, RuntimeError) and sjob0 is not None and sjob0.state == "CANCELLED"
+              and jname in server.cancel_requests and "CANCELLED" in str(e)):
             ok, why = True, "job-cancelled"
         elif isinstance(e, TimeoutError) or (isinstance(e, RuntimeError) and "Timed out waiting" in str(e)):
             # context.timeout really elapsed on the virtual clock while the job was not (or only just) terminal
